@@ -7,7 +7,8 @@ Pts == {TInt(-2), TInt(-1), TInt(0), TRat(1, 2), TInt(1), TRat(3, 2), TInt(2), T
 Centres == {TInt(0), TRat(1, 2), TInt(1), TInt(-1), TInt(5), TRat(2, 3)}
 \* all orderings matter to the recurrence: grids are sequences without repetition
 Grids(n) == {g \in [1..n -> Pts] : \A i, j \in 1..n : i # j => g[i] # g[j]}
-Sub(S, n) == IF Thorough \/ Cardinality(S) <= n THEN S ELSE RandomSubset(n, S)
+\* (the thorough tier samples three times as many of each operand set)
+Sub(S, n) == LET m == IF Thorough THEN 3 * n ELSE n IN IF Cardinality(S) <= m THEN S ELSE RandomSubset(m, S)
 Case(g, m, a) == [op |-> "fdiff", grid |-> g, m |-> m, around |-> a]
 Cases == {Case(g, m, a) : g \in Grids(1) \cup Grids(2), m \in 0..2, a \in Centres}
          \cup {Case(g, m, a) : g \in Sub(Grids(3), 150), m \in 0..3, a \in Sub(Centres, 3)}
